@@ -204,6 +204,7 @@ func tokenPrefix(out string, id, n int) (string, bool) {
 }
 
 func RunC12(env *sim.Env) {
+	defer DropIfTooExpensive(env)
 	t := env.Tape
 	if t.Choose(40) == 39 {
 		// a long-lived process: 66 000 templates have been parsed before this one (an index that wraps, a
@@ -244,12 +245,14 @@ func RunC12(env *sim.Env) {
 	var sampleCases []string
 	for _, m := range world.Mains {
 		call := Call{Tmpl: m, Data: data, Tokens: true}
+		stepsBefore := Steps()
 		T, nested := run(world.Files, call)
+		costT := Steps() - stepsBefore
 		if T.Failed() {
 			env.Stat("counters:mains_whose_fault_free_run_fails", 1)
 			continue
 		}
-		if T.Probes.Calls > 600 || len(T.Out) > 1<<16 {
+		if T.Probes.Calls > 600 || len(T.Out) > 1<<16 || costT > MaxStepsPerExecution {
 			env.Stat("counters:mains_skipped_too_large", 1)
 			continue
 		}
